@@ -189,9 +189,9 @@ def C20_dispatch_full : Prop :=
 
 /-- **C20, dispatch (the part that holds).**  Let the oldest outstanding
 Subscribe `r` of a connected client (trie in step with `store`, `r`'s callback
-not yet registered anywhere, `r`'s filters without empty or `$`-led levels) be
+not yet registered anywhere, `r`'s filters without empty levels and not beginning with `$`) be
 acknowledged by a SUBACK with one return code per filter.  Then for every
-message `p` (valid topic name without empty or `$`-led levels, QoS <= 2) for
+message `p` (valid topic name without empty levels, not beginning with `$`, QoS <= 2) for
 which at most one of the granted filters of `r` matches - the recorded
 exclusion E9: filters of one request that overlap on this topic - the dispatch
 of `p` invokes `r`'s callback exactly once if a granted filter matches the
@@ -353,8 +353,8 @@ example :
 /-! ## (h) after a completed Unsubscribe the listed filters deliver nothing -/
 
 /-- **C20, Unsubscribe.**  Let the oldest outstanding Unsubscribe `r` of a
-connected client (trie in step with `store`, `r`'s filters without empty or
-`$`-led levels) be acknowledged by its UNSUBACK.  Afterwards the trie holds
+connected client (trie in step with `store`, `r`'s filters without empty
+levels and not beginning with `$`) be acknowledged by its UNSUBACK.  Afterwards the trie holds
 exactly the entries of `store` whose filter is not listed in `r` - every
 callback registered under exactly a listed filter is removed
 (`C06_sremove_refines`, "remove all" mode), entries under other filters are
